@@ -478,7 +478,7 @@ func (t *gtree) finish(r *result) {
 			n.orphan = true
 		}
 		if n.pool != nil && n.orphan {
-			n.pool.Shutdown()
+			guarded(r, n.pool, "shutdown", func() { n.pool.Shutdown() })
 			r.count("g:orphan-pool")
 		}
 	}
@@ -657,7 +657,9 @@ func groupStress(r *result, seed uint64) {
 			}
 		}()
 	}
-	wg.Wait()
+	if !guarded(r, nil, "group-submitters", wg.Wait) {
+		return
+	}
 	if !within(bound, root.WaitChildren) {
 		r.fail("termination", "root.WaitChildren did not return", map[string]string{"api": "workerpool.Group.WaitChildren", "effect": "hang"})
 
